@@ -952,18 +952,31 @@ impl IndexManager {
         truncated_key[..9.min(key_bytes.len())]
             .copy_from_slice(&key_bytes[..9.min(key_bytes.len())]);
 
-        if let Some(index) = self.indices.get_mut(&index_id) {
-            let tombstone = UpdateEntry::new(
+        let make_tombstone = || {
+            UpdateEntry::new(
                 truncated_key,
-                entry.archive_location,
+                entry.archive_location.clone(),
                 entry.size,
                 UpdateStatus::Delete,
-            );
-            index.update_section.append(tombstone);
+            )
+        };
+
+        let Some(index) = self.indices.get_mut(&index_id) else {
+            return false;
+        };
+        if index.update_section.append(make_tombstone()) {
             return true;
         }
 
-        false
+        // Update section full -- flush (merge into sorted), then retry, as
+        // `add_entry` does. Dropping the tombstone would report a removal
+        // that never took effect.
+        if self.flush_updates_for_bucket(index_id).is_err() {
+            return false;
+        }
+        self.indices
+            .get_mut(&index_id)
+            .is_some_and(|index| index.update_section.append(make_tombstone()))
     }
 
     /// Check if an entry exists by encoding key
